@@ -23,3 +23,19 @@ _m("C02", "every numflux dispatch of the real models is observed (after-hook on 
           "The monitor checks consistency where L==R exactly, re-invokes the same real function on the mirrored pair, and "
           "compares with the upwind physical flux where L, R and the Roe average are supercritical.  non-trivial: a call whose "
           "pairs are not all equal; distinct = hash(flux, gamma/g, first states).")
+
+_m("C03", "uniform states: rho,p,h over 10^+-3, Mach/Froude in {0,0.02,...,3} of either sign, any flow angle in 2D, every "
+          "model x flux x reconstruction x mesh kind x matching boundary pair (periodic, dirichlet, inlet x outlet on the upstream/"
+          "downstream side, supersonic inlet with angle, walls), nozzle at rest with random section laws; rhs residual and the "
+          "state after 1-7 steps of every integrator (dtlocal on/off) are compared with zero drift, normalised by the flux scale "
+          "rho*(|u|+c)^k/dx and the 1/M^2 conditioning of total-pressure inlets.  non-trivial: every case (a full scheme is run); "
+          "distinct = hash of configuration + state.")
+
+_m("C05", "every explicit integrator class (explicit, forwardeuler, rk2, rk2_heun, rk3_heun, rk3ssp, rk4, lsrk25bb, lsrk26bb, lsrk4) "
+          "is driven through its real step() with a recording right-hand side: (a) unit-vector stage derivatives spell out the "
+          "Butcher tableau (A, b) and the times presented to each stage, checked against rooted-tree order conditions, published "
+          "Bogey-Bailly stability polynomials and Kraaijevanger's SSP criterion, for dt over 10^+-6 and start times != 0; (b) random "
+          "nonlinear state/time-dependent right-hand sides and real flowdyn discretisations, scalar dt and local-dt arrays: every "
+          "recorded stage input and the result must be reproduced through (A, b); (c) dt-halving order on non-autonomous nonlinear "
+          "ODEs against scipy DOP853.  non-trivial: every case; distinct = hash(integrator, rhs coefficients, dt).",
+   exhaustive_groups=["tableau (all explicit integrator classes)"])
